@@ -349,6 +349,21 @@ def r6_1_equal(ck, P):
             ats = f.atoms(x.a[0]) | f.atoms(x.a[1])
             if any(a[0] == 'field' and a[1].endswith('.numRects') for a in ats):
                 count = True
+        # a memcmp of the two rectangle arrays over count * sizeof (box) compares every coordinate of every pair
+        boxsize = u.structs.get(box, {}).get('size') or (16 if _w(u) == '32' else 8)
+        from .geometry import linear as _lin
+        for c in f.calls():
+            if c.callee in ('memcmp',) and len(c.a) >= 3:
+                l = _lin(f, c.a[2])
+                per = None
+                if l is not None:
+                    nz = {t: cf for t, cf in l.items() if t != ()}
+                    if len(nz) == 1 and not l.get((), 0):
+                        per = list(nz.values())[0]
+                if per == boxsize:
+                    rect |= {'x1', 'y1', 'x2', 'y2'}
+                else:
+                    ck.violation(R, f.name, 'memcmp of the rectangle arrays', '%s compares %s bytes per rectangle, a rectangle has %d: later rectangles are not compared and different regions compare equal' % (f.name, per, boxsize), c.loc())
         for m in ('x1', 'y1', 'x2', 'y2'):
             if m in ext:
                 ck.ok(R, '%s compares extents.%s' % (f.name, m))
@@ -677,3 +692,50 @@ def r7_3_queries(ck, P):
                     ck.ok(R, '%s: pixel reads guarded by format == a1' % f.name)
                 else:
                     ck.violation(R, f.name, 'format guard', '%s reads the bitmap without requiring the a1 format' % f.name, '%s:%d' % (u.name, f.line))
+
+
+
+def r6_2b_extents_after_drop(ck, P):
+    R = ck.rule('C06-R2b', 'where translation detects that rectangles were dropped (output cursor != input cursor) every path to return re-establishes the extents or the empty region', floor=2)
+    for u in units(P):
+        data = _reg(u) + '_data.numRects'
+        for f in u.functions.values():
+            decs = [x for x in f.insts() if x.op == 'store' and f.last_field(f.path(x.a[1])) == data and _decrement(f, x)]
+            if not decs or not f.exported:
+                continue
+            # the drop-detection test: comparison of two loop-carried pointers of the box type
+            T = None
+            for b in f.blocks:
+                t = b.term
+                if t.op == 'br' and t.a:
+                    c, pred, ops = f.cond(t.a[0])
+                    if c is not None and c.op == 'icmp' and pred in ('eq', 'ne') and len(ops) == 2:
+                        ys = [f.v(f.strip_casts(o)) for o in ops]
+                        if all(y is not None and y.op == 'phi' and 'pixman_box' in y.ty for y in ys) and all(b.id in f.reachable_blocks(d.bb.id) for d in decs):
+                            T = (t, pred)
+            if T is None:
+                continue
+            ck.saw(f)
+            t, pred = T
+            start = t.d['succ'][0] if pred == 'ne' else t.d['succ'][1]
+            ev = {x.i for x in _extent_events(P, u, f, 0)}
+            # also: storing the empty sentinel (with x2 = x1, y2 = y1) normalises an emptied region
+            for x in f.insts():
+                if x.op == 'store' and f.last_field(f.path(x.a[1])) == _reg(u) + '.data' and _is_global_load(f, x.a[0], 'pixman_region_empty_data'):
+                    ev.add(x.i)
+            seen = set(); work = [start]; leak = None
+            while work:
+                b = work.pop()
+                if b in seen:
+                    continue
+                seen.add(b)
+                blk = f.blocks[b]
+                if any(x.i in ev for x in blk.insts):
+                    continue
+                if blk.term.op == 'ret':
+                    leak = blk.term; break
+                work.extend(blk.succ)
+            if leak is None:
+                ck.ok(R, '%s/%s: extents recomputed after rectangles were dropped' % (u.name, f.name))
+            else:
+                ck.violation(R, f.name, 'extents after dropped rectangles (%s)' % _w(u), '%s can return after discarding rectangles without recomputing the extents of the survivors: the region is not canonical (extents too large), equal() and selfcheck fail' % f.name, t.loc())
